@@ -102,6 +102,40 @@ def failureType : String :=
 def failureIsInterface : Bool :=
   true
 
+def bodyEnvUnpickler : String :=
+  String.join [
+    "(block (if _ (!= v0 \"dawn\") (block (return nil (call (. fmt Errorf) \"cannot unpickle value of type %s.%s\" v0 v1))) _) (switch _ v1 (case (\"Target\") (if _ (!= (call len v2) 1) (block (return nil (call (. fmt Errorf) \"expcted 1 arg, got %v\" (call len v2)))) _) (return (index v2 0) nil)) (case (\"Builtin\") (if _ (&& (!= (call len v2) 0) (!= (call len v2) 2)) (block (return nil (call (. fmt Errorf) \"expected 0 or 2 args, got %v\" (call len v2)))) _) (return v2 nil)) (case (\"Recursive\") (if _ (!= (call len v2) 2) (block (return nil (call (. fmt Errorf) \"expected 2 args, got %v\" (call len v2)))) _) (return v2 nil)) (case (\"Mandatory\") (if _ (!= (call len v2) 0) (block (return nil (call (. fmt Errorf) \"expected 0 args, got %v\" (call len v2)))) _) (return (call (. starlark String) \"mandatory paramet",
+    "er\") nil)) (case (\"FunctionCode\") (if _ (&& (!= (call len v2) 3) (!= (call len v2) 4)) (block (return nil (call (. fmt Errorf) \"expected 3 or 4 args, got %v\" (call len v2)))) _) (:= (v0 v3 v4) ((assert (index v2 0) (. starlark Tuple)) (index v2 1) (index v2 2))) (:= (v5 v6 v7 v8 v9) ((index v0 0) (index v0 1) (index v0 2) (index v0 3) (index v0 4))) (:= (v10) ((call (. starlark NewDict) 7))) (call (. v10 SetKey) (call (. starlark String) \"names\") v5) (call (. v10 SetKey) (call (. starlark String) \"constant values\") v6) (call (. v10 SetKey) (call (. starlark String) \"predeclared values\") (call makeDictFromAssociationList v7)) (call (. v10 SetKey) (call (. starlark String) \"universal values\") (call makeDictFromAssociationList v8)) (call (. v10 SetKey) (call (. starlark String) \"function valu",
+    "es\") v9) (call (. v10 SetKey) (call (. starlark String) \"global values\") (call makeDictFromAssociationList v3)) (call (. v10 SetKey) (call (. starlark String) \"code\") v4) (if _ (== (call len v2) 4) (block (call (. v10 SetKey) (call (. starlark String) \"parameters\") (index v2 3))) _) (return v10 nil)) (case (\"Function\") (if _ (!= (call len v2) 3) (block (return nil (call (. fmt Errorf) \"expcted 3 args, got %v\" (call len v2)))) _) (:= (v11 v12 v13) ((index v2 0) (index v2 1) (assert (index v2 2) (* (. starlark Dict))))) (call (. v13 SetKey) (call (. starlark String) \"default parameter values\") (call makeDictFromAssociationList v11)) (call (. v13 SetKey) (call (. starlark String) \"free variables\") (call makeDictFromAssociationList v12)) (return v13 nil)) (default (return nil (call (. fmt Erro",
+    "rf) \"cannot unpickle value of type %s.%s\" v0 v1)))))"]
+
+def bodyMakeDictFromAssociationList : String :=
+  "(block (:= (v1 v2) ((assert v0 (. starlark Tuple)))) (if _ (u! v2) (block (return (. starlark None))) _) (:= (v3) ((call (. starlark NewDict) (call len v1)))) (range _ v4 v1 (block (:= (v5) ((assert v4 (. starlark Tuple)))) (call (. v3 SetKey) (assert (index v5 0) (. starlark String)) (index v5 1)))) (return v3))"
+
+def envNames : List (List Nat) :=
+  [[84, 97, 114, 103, 101, 116],
+   [66, 117, 105, 108, 116, 105, 110],
+   [82, 101, 99, 117, 114, 115, 105, 118, 101],
+   [77, 97, 110, 100, 97, 116, 111, 114, 121],
+   [70, 117, 110, 99, 116, 105, 111, 110, 67, 111, 100, 101],
+   [70, 117, 110, 99, 116, 105, 111, 110]]
+
+def envStrings : List (List Nat) :=
+  [[109, 97, 110, 100, 97, 116, 111, 114, 121, 32, 112, 97, 114, 97, 109, 101, 116, 101, 114],
+   [110, 97, 109, 101, 115],
+   [99, 111, 110, 115, 116, 97, 110, 116, 32, 118, 97, 108, 117, 101, 115],
+   [112, 114, 101, 100, 101, 99, 108, 97, 114, 101, 100, 32, 118, 97, 108, 117, 101, 115],
+   [117, 110, 105, 118, 101, 114, 115, 97, 108, 32, 118, 97, 108, 117, 101, 115],
+   [102, 117, 110, 99, 116, 105, 111, 110, 32, 118, 97, 108, 117, 101, 115],
+   [103, 108, 111, 98, 97, 108, 32, 118, 97, 108, 117, 101, 115],
+   [99, 111, 100, 101],
+   [112, 97, 114, 97, 109, 101, 116, 101, 114, 115],
+   [100, 101, 102, 97, 117, 108, 116, 32, 112, 97, 114, 97, 109, 101, 116, 101, 114, 32, 118, 97, 108, 117, 101, 115],
+   [102, 114, 101, 101, 32, 118, 97, 114, 105, 97, 98, 108, 101, 115]]
+
+def envExplicitPanics : Nat :=
+  0
+
 def bodyWriterWrite : String :=
   "(block (if (:= (_ v2) ((call (. (. v0 w) Write) v1))) (!= v2 nil) (block (call panic (call failure v2))) _) (return (call len v1) nil))"
 
